@@ -56,7 +56,7 @@ theorem hasTerm_tail {t : Tok} {rest : List Tok} (h : hasTerm (t :: rest) = true
   | data _ => simpa [hasTerm] using h
   | iterTerm _ => simpa [hasTerm] using h
 
-theorem hasTerm_of_mem {l : List Tok} {ok : Bool} (h : Tok.term ok ∈ l) : hasTerm l = true := by
+theorem hasTerm_of_mem {l : List Tok} {ok : TermSt} (h : Tok.term ok ∈ l) : hasTerm l = true := by
   unfold hasTerm
   exact List.any_eq_true.mpr ⟨_, h, rfl⟩
 
@@ -75,25 +75,25 @@ def isTerm : Tok → Bool
   | .term _ => true
   | _ => false
 
-/-- `TerminationToken` with a status other than COMPLETED -/
+/-- `TerminationToken` with status FAILED or CANCELLED -/
 def isBad : Tok → Bool
-  | .term false => true
+  | .term .failed => true
   | _ => false
 
-@[simp] theorem consume_stream (fixed : Bool) (p : PortSt) (tok : Tok) : (consume fixed p tok).stream = p.stream := by
+@[simp] theorem consume_stream (p : PortSt) (tok : Tok) : (consume p tok).stream = p.stream := by
   cases tok <;> simp only [consume] <;> split <;> rfl
 
-@[simp] theorem consume_pending (fixed : Bool) (p : PortSt) (tok : Tok) :
-    (consume fixed p tok).pending = p.pending := by
+@[simp] theorem consume_pending (p : PortSt) (tok : Tok) :
+    (consume p tok).pending = p.pending := by
   cases tok <;> simp only [consume] <;> split <;> rfl
 
-@[simp] theorem consume_terminated (fixed : Bool) (p : PortSt) (tok : Tok) :
-    (consume fixed p tok).terminated = (p.terminated || isTerm tok) := by
+@[simp] theorem consume_terminated (p : PortSt) (tok : Tok) :
+    (consume p tok).terminated = (p.terminated || isTerm tok) := by
   cases tok <;> simp only [consume, isTerm, Bool.or_false, Bool.or_true] <;> split <;> rfl
 
 /-- the port after its read returned `tok` (`failed'` = the failure flag after this token) -/
 def portAfter (fixed failed' : Bool) (p : PortSt) (tok : Tok) (rest : List Tok) : PortSt :=
-  let p1 := consume fixed { p with stream := rest } tok
+  let p1 := consume { p with stream := rest } tok
   { p1 with pending := if fixed then !(p1.terminated && (failed' || p1.checklist.isEmpty))
                        else !(p1.terminated && p1.checklist.isEmpty) }
 
@@ -141,7 +141,7 @@ theorem step_spec {fixed : Bool} {s s' : St} {i : Nat} (hs : step fixed s i = so
         cases hs
         refine ⟨p, tok, rest, hp, hpend, hst, ?_⟩
         cases tok with
-        | term ok => cases ok <;> rfl
+        | term st => cases st <;> rfl
         | _ => rfl
     · cases hs
 
@@ -233,7 +233,7 @@ theorem inv_done {s : St} (hI : Inv s) (hf : s.failed = true) (he : ∀ p ∈ s.
 /-! ## The patch is neutral without failure -/
 
 theorem step_patch_neutral {s : St} {i : Nat} (hf : s.failed = false)
-    (hh : ∀ p, s.ports[i]? = some p → p.stream.head? ≠ some (.term false)) :
+    (hh : ∀ p, s.ports[i]? = some p → p.stream.head? ≠ some (.term .failed)) :
     step true s i = step false s i := by
   simp only [step]
   split
@@ -255,9 +255,9 @@ theorem step_patch_neutral {s : St} {i : Nat} (hf : s.failed = false)
     · rfl
 
 /-- no failed termination is ever to be delivered, and none was seen -/
-def NoFailSt (s : St) : Prop := s.failed = false ∧ ∀ p ∈ s.ports, Tok.term false ∉ p.stream
+def NoFailSt (s : St) : Prop := s.failed = false ∧ ∀ p ∈ s.ports, Tok.term .failed ∉ p.stream
 
-theorem noFailSt_init {streams : List (List Tok)} (h : ∀ l ∈ streams, Tok.term false ∉ l) :
+theorem noFailSt_init {streams : List (List Tok)} (h : ∀ l ∈ streams, Tok.term .failed ∉ l) :
     NoFailSt (initSt streams) := by
   refine ⟨rfl, ?_⟩
   intro p hp
@@ -283,7 +283,7 @@ theorem noFailSt_step {s s' : St} {i : Nat} (hs : step false s i = some s') (hN 
         · exact hN.2 q h
         · have h1 := hN.2 p hpm
           rw [hst] at h1
-          have h2 : Tok.term false ∉ rest := fun h => h1 (List.mem_cons_of_mem _ h)
+          have h2 : Tok.term .failed ∉ rest := fun h => h1 (List.mem_cons_of_mem _ h)
           cases tok with
           | data t => simp only [consume]; split <;> exact h2
           | iterTerm t => exact h2
@@ -291,7 +291,7 @@ theorem noFailSt_step {s s' : St} {i : Nat} (hs : step false s i = some s') (hN 
     · cases hs
 
 theorem noFailSt_head {s : St} (hN : NoFailSt s) (i : Nat) :
-    ∀ p, s.ports[i]? = some p → p.stream.head? ≠ some (.term false) := by
+    ∀ p, s.ports[i]? = some p → p.stream.head? ≠ some (.term .failed) := by
   intro p hp hh
   have := hN.2 p (List.mem_of_getElem? hp)
   cases hst : p.stream with
